@@ -71,6 +71,9 @@ def scripts_for(cfg, max_dev):
             singles.append((s, o))
         if s == 'ehlo' and not cfg.get('lmtp'):
             singles.append(('ehlo', '500'))
+        if s == 'auth':
+            singles.append((s, '334-bad'))       # a challenge that cannot be decoded
+            singles.append((s, '334-extra'))     # an extra challenge, then 235
         if s.startswith('rcpt'):
             singles.append((s, '251'))           # accepted, with a 2xx code other than 250
     stalls = [(s, 'stall') for s in st if s not in ('quit',)]
@@ -108,10 +111,10 @@ def judge_smtp(cfg, script, w):
                 acc = [r.decode('latin-1') for r, ok in t['rcpts'] if ok]
                 for entry in p.log:
                     stage, o, txn = entry
-                    if o in ('2', '500', '251'):
+                    if o in ('2', '500', '251', '334-extra'):
                         continue
                     cls = 'perm' if o == '5' else 'temp'
-                    if o in ('malformed', 'badcode', 'disconnect', 'stall') and txn == t_index and stage not in ('quit',):
+                    if o in ('malformed', 'badcode', 'disconnect', 'stall', '334-bad') and txn == t_index and stage not in ('quit',):
                         for r in env.recipients:
                             deciding[r].add('temp')
                         continue
@@ -128,13 +131,15 @@ def judge_smtp(cfg, script, w):
                             deciding[r].add(cls)
             # connection-level stages decide for every envelope that never got a transaction on this peer
             for stage, o, txn in p.log:
-                if o in ('2', '500', '251'):
+                if o in ('2', '500', '251', '334-extra'):
                     continue
                 if stage in ('banner', 'ehlo', 'helo', 'auth', 'tls') or (stage == 'starttls' and cfg.get('tls_required')) or (o == 'stall' and stage == 'starttls'):
                     cls = 'perm' if o == '5' else 'temp'
                     if not any(t['sender'].decode('latin-1') == env.sender for t in p.transactions):
                         for r in env.recipients:
                             deciding[r].add(cls)
+                            if o == '334-bad':
+                                deciding[r].add('perm')     # an undecodable challenge: either class, but a relay error
         desc = 'script %r (%s%s n=%d%s): attempt -> %s %r; peer accepted %r' % (
             script, 'LMTP' if cfg.get('lmtp') else 'SMTP', '' if cfg.get('pipelining', True) else ' no-pipelining', cfg['n'],
             ''.join(' %s=%r' % (k, cfg[k]) for k in ('tls', 'tls_required', 'auth', 'connect', 'envelopes', 'pool_size') if cfg.get(k)),
